@@ -59,7 +59,9 @@ BUDGET = {"quick": 25, "thorough": 600}
 NAMES = ("a", "b", "c")
 SIZES = (2, 0, 1, 3, -1, 400)
 KINDS = ("dict", "func-str", "func-triple", "fs", "fs2", "choice", "prefix", "choice-fs")
-_VER = re.compile(r"^(\w+):v(\d+):7$")
+_VER = re.compile(r"^\[?(\w+):v(\d+):7\]?$")
+CHILD = "k"  # a template that extends 'a' and wraps its block in [ ... super() ... ]; its own source never changes
+CHILD_SRC = "{% extends 'a' %}{% block b %}[{{ super() }}]{% endblock %}"
 _setup_done = False
 
 
@@ -80,7 +82,7 @@ def setup() -> None:
     import jinja2.loaders as L
     import jinja2.utils as U
 
-    T.install(src, line_events=False, instr_classes=[U.LRUCache])
+    T.install(src, line_events=False, instr_classes=[U.LRUCache, __import__("functools").cached_property])
     T.install_deep(T.module_functions(E) + T.module_functions(L) + T.module_functions(U, exclude_classes=[U.LRUCache]))
     U.Lock = T.SimLock
     T.neutralise_real_locks()
@@ -111,7 +113,9 @@ class Storage:
         return self.kind in ("fs", "fs2", "choice-fs")
 
     def src(self, name: str, v: int) -> str:
-        return f"{name}:v{v}:{{{{ x }}}}"
+        if name == CHILD:
+            return CHILD_SRC
+        return "{% block b %}" + f"{name}:v{v}:{{{{ x }}}}" + "{% endblock %}"
 
     def _recompute(self, name: str) -> None:
         for di in range(self.ndirs):
@@ -609,6 +613,9 @@ def run(tape) -> Outcome:
     for n in names[: 1 + tape.draw(nnames)]:
         st.write(n, tape.draw(st.ndirs))
     with_bcc = tape.draw(3, "m") == 2  # an (in-memory) bytecode cache must not change what the template cache serves
+    with_child = kind in ("dict", "func-triple", "func-str", "fs") and tape.draw(4, "m") == 3
+    if with_child:
+        st.write(CHILD)
     env0 = jinja2.Environment(loader=st.make_loader(), auto_reload=auto_reload, cache_size=size,
                               bytecode_cache=_mem_bytecode_cache() if with_bcc else None)
     two_envs = tape.draw(3) == 2  # a second environment (overlay) sharing the loader object, with its own cache
@@ -637,7 +644,7 @@ def run(tape) -> Outcome:
                 ei = tape.draw(len(envs)) if len(envs) > 1 else 0
                 env, model = envs[ei], models[ei]
                 if k == 0:
-                    target = tape.pick(req_names)
+                    target = tape.pick(req_names + ([CHILD, CHILD] if with_child else []))
                     tnames = [target]
                     arg = target
                 else:
@@ -669,6 +676,11 @@ def run(tape) -> Outcome:
                 mfault = {"kind": fault}
                 for n in tnames:
                     acc, res = model.lookup(st, n, mfault)
+                    if n == CHILD and acc not in ({"oserror"}, {"notfound"}):
+                        # rendering the child loads its parent through the same cache: what the render shows is
+                        # whatever a lookup of 'a' serves now (the child's own cached object must not pin an old parent)
+                        acc, res = model.lookup(st, "a", mfault)
+                        n = "a"
                     if acc == {"oserror"}:
                         expected = acc
                         break
@@ -790,6 +802,7 @@ def run(tape) -> Outcome:
     out.count("faults_fired_" + str(fault_kind), fired_faults)
     out.count("histories_with_fault", 1 if faulty else 0)
     out.count("runs_with_bytecode_cache", 1 if with_bcc else 0)
+    out.count("histories_with_inheriting_child", 1 if with_child else 0)
     out.decoded = {"loader": kind, "auto_reload": auto_reload, "cache_size": size, "names": names, "environments": len(envs),
                    "alias_names": aliases, "bytecode_cache": with_bcc, "ops": ops_dec,
                    "fault": {"op": fault_op, "kind": fault_kind} if faulty else None}
